@@ -2,6 +2,9 @@
    Core-only (no Mathlib / Batteries anywhere below), so it links as a native executable. -/
 import Driver.Util
 import Driver.C15
+import Driver.DataZSet
+import Driver.DataList
+import Driver.DataSet
 import Driver.DataTTL
 import Driver.DataKV
 import Driver.Wal
@@ -34,6 +37,9 @@ def main (args : List String) : IO UInt32 := do
   match args with
   | ["datacorekv"] => loop Drv.DataKV.step hin hout {}; hout.flush; return 0
   | ["datacorettl"] => loop Drv.DataTTL.step hin hout {}; hout.flush; return 0
+  | ["datacoreset"] => loop Drv.DataSet.step hin hout {}; hout.flush; return 0
+  | ["datacorelist"] => loop Drv.DataList.step hin hout {}; hout.flush; return 0
+  | ["datacorezset"] => loop Drv.DataZSet.step hin hout {}; hout.flush; return 0
   | ["c15"] => loop Drv.C15.step hin hout (); hout.flush; return 0
   | ["wal"] => loop Drv.Wal.step hin hout {}; hout.flush; return 0
   | ["lin"] => loop Drv.Lin.step hin hout (); hout.flush; return 0
